@@ -79,6 +79,8 @@ POOL = ['Water', 'Ethanol', 'Methanol', 'Glycerol', 'Propanol', 'Octane', 'Butan
 RESERVED = ['tuple', 'size', 'IDs', 'CASs', 'MW', 'Hf', 'LHV', 'HHV', '_index', '_group_wt_compositions',
             '_group_mol_compositions', '_index_cache', 'vle_chemicals', 'lle_chemicals', 'heavy_chemicals',
             'light_chemicals', '_vle_index', '_lle_index', '_heavy_solutes', '_heavy_indices', '_light_indices']
+ISOMERS = [('Ethanol', 'DimethylEther'), ('Propanol', 'Isopropanol'), ('Butanol', 'Isobutanol'), ('Butanol', 'DiethylEther'),
+           ('Isobutanol', 'DiethylEther'), ('AceticAcid', 'MethylFormate')]
 VALID_PHASES = 'slgSL'
 POOL_DATA = {}      # name -> (CAS, names)
 
@@ -252,6 +254,7 @@ class ChemSet:
         self.recipe = recipe           # list of recipe tokens
         self.defs = []                 # successful ('alias', id, alias) / ('group', name, ids, comp)
         self.known = {}                # chemical name -> position, as first observed
+        self.shared = set()            # names claimed by two chemicals at compilation (must stay undefined)
         self.real = None
         self.specs = None              # [(ID, CAS, names)]
         self._fresh = None
@@ -475,6 +478,17 @@ class Universe:
                         fail('compile:name-dropped', f'name {n!r} of chemical {k} alone is not accepted')
                 if sorted(cs.real.get_aliases(ID)) != sorted(x for x, p in table.items() if p == k):
                     fail('compile:aliases', f'get_aliases({ID!r}) differs from the names resolving to {k}')
+            # a name claimed by two chemicals (isomers share a formula, ...) belongs to neither: it must be rejected
+            reserved_names = {s2[0] for s2 in cs.specs} | {s2[1] for s2 in cs.specs}
+            cs.shared = {n for s2 in cs.specs for n in s2[2]
+                         if n not in reserved_names and sum(1 for s3 in cs.specs if n in s3[2]) >= 2}
+            if cs.shared: self.tags.add('chems:shared-names')
+            for n in sorted(cs.shared):
+                if n in table:
+                    fail('compile:shared-name-accepted',
+                         f'name {n!r} is claimed by chemicals {[j for j, s3 in enumerate(cs.specs) if n in s3[2]]} '
+                         f'but resolves to position {table[n]}; it should resolve to neither')
+                    break
             cs.known = {n: p for n, p in table.items() if isinstance(p, int)}
             self.tags.add(f'chems:{len(cs.specs)}')
             return self.chems_line(cs), 'ok ' + ' '.join(ans)
@@ -488,9 +502,11 @@ class Universe:
                 self.tags.add('alias:err:' + err_name(e))
                 # a failed call may have entered the name already (ID = a group name): the fresh object replays it
                 cs.defs.append(('alias-failed', ID, a)); cs._fresh = None
+                cs.shared.discard(a)
                 self.names_stay(cs, fail, 'alias')
                 return line, 'err=' + err_name(e)
             cs.defs.append(('alias', ID, a)); cs._fresh = None
+            cs.shared.discard(a)
             self.tags.add('alias:ok')
             self.names_stay(cs, fail, 'alias')
             cs.known[a] = cs.real.index(a)
@@ -511,6 +527,7 @@ class Universe:
                 self.tags.add('group:err')
                 return line, 'err=' + err_name(e)
             cs.defs.append(('group', name, ids, comp, wt)); cs._fresh = None
+            cs.shared.discard(name)
             if wt: self.inexact = True
             self.tags.add(('group:redefined' if redefinition else 'group:ok') + (':wt' if wt else ''))
             self.names_stay(cs, fail, 'group')
@@ -583,6 +600,10 @@ class Universe:
                 return mline, 'err=' + err_name(e)
             self.note_cache(ix)
             ans = canon(v)
+            probe = key[1] if (isinstance(key, (tuple, list)) and len(key) == 2 and isinstance(ix, ind.MaterialIndexer)) else key
+            if isinstance(probe, str) and probe in cs.shared and not (probe is key and len(probe) == 1):
+                fail(f'{op}:shared-name-resolves', f'{t[2]}: the name {probe!r} is claimed by two chemicals of the set and must be '
+                                                   f'undefined, but the lookup answered {ans}')
             if exp is not None:
                 self.tags.add(op + ':' + exp[0])
                 if not same(ans, exp[1]):
@@ -893,7 +914,7 @@ def run_impl(case: Case) -> ImplResult:
         if f['signature'] not in seen:
             seen.add(f['signature']); fs.append(f)
     key = hashlib.md5('\n'.join(case.ops).encode()).hexdigest() if good else None
-    tags = sorted(U.tags) + (['generation-stopped-early'] if case.meta.get('stopped') else [])
+    tags = sorted(U.tags) + (['generation-stopped-early'] if case.meta.get('stopped') else []) + ['kind:' + str(case.meta.get('kind', '?'))]
     return ImplResult(model_in=model_in, outs=outs, failures=fs, tags=tags, nontrivial=key)
 
 
@@ -939,6 +960,10 @@ class Gen:
     def recipe(self, n):
         rng = self.rng
         names = rng.sample(POOL, n)
+        if n >= 2 and rng.random() < 0.4:          # isomers: two chemicals claim one formula
+            pair = list(rng.choice(ISOMERS)); rng.shuffle(pair)
+            names = [x for x in names if x not in pair][:n - 2] + pair[:2]
+            rng.shuffle(names)
         toks = []
         for k, x in enumerate(names):
             r = rng.random()
@@ -1022,6 +1047,8 @@ class Gen:
         rng = self.rng
         names, groups = self.accepted(s)
         r = rng.random()
+        shared = sorted(self.U.sets[s].shared)
+        if shared and r < max(bad, 0.02): return rng.choice(shared)       # claimed by two chemicals: must be undefined
         if r < bad: return rng.choice(['Nope', 'H2O2', 'C2H6O', 'x', ''.join(rng.choice('abcXYZ') for _ in range(3))])
         if groups and r < bad + 0.2: return rng.choice(groups)
         return rng.choice(names)
@@ -1263,6 +1290,68 @@ def gen_grow(g, rng):
 
 
 @stoppable
+def gen_twins(g, rng):
+    """two (or three) DISTINCT chemicals objects compiled from the same list of chemicals (equal ID tuples), in which the
+    same alias / group names mean different chemicals; indexers of each with the same phases; the same keys looked up
+    alternately through them: whatever is memoised for one must never answer for the other"""
+    n = rng.choice([2, 3, 3, 4, 5, 6])
+    recipe = [t for t in g.recipe(n) if '~' not in t] or ['Water', 'Ethanol']
+    if len(recipe) < 2: recipe = recipe + [x for x in ['Water', 'Ethanol'] if x not in recipe][:1]
+    sets = []
+    for _ in range(rng.choice([2, 2, 3])):
+        before = len(g.U.sets)
+        g.do('chems ' + ' '.join(recipe))
+        if len(g.U.sets) == before: raise Stop()
+        sets.append(len(g.U.sets) - 1)
+    size = g.U.sets[sets[0]].real.size
+    gnames = [f'G{j}' for j in range(rng.randrange(1, 4))]
+    anames = [f'al{j}' for j in range(rng.randrange(1, 4))]
+    for s in sets:                                  # same names, (mostly) different meanings
+        names, _ = g.accepted(s)
+        idx = g.U.sets[s].real._index
+        for a in anames:
+            p = rng.randrange(size)
+            g.do(f'alias {s} {enc(rng.choice([x for x in names if idx[x] == p]))} {a}')
+        for gn in gnames:
+            k = rng.randrange(1, min(3, size) + 1)
+            pos = rng.sample(range(size), k)
+            ids = [rng.choice([x for x in names if idx[x] == p]) for p in pos]
+            comp = ','.join(map(str, rng.choice(GROUP_COMPS[k])))
+            g.do(f'group {s} {gn} {",".join(enc(x) for x in ids)} {comp}')
+    phs = ''.join(rng.sample(VALID_PHASES, rng.randrange(1, 4)))
+    ixs = {}
+    for s in sets:
+        g.do(f'mix {s} {phs}'); ixs[s] = [len(g.U.ixs) - 1]
+        g.do(f'cix {s}'); ixs[s].append(len(g.U.ixs) - 1)
+        if rng.random() < 0.3: g.do(f'six {s}'); ixs[s].append(len(g.U.ixs) - 1)
+    for i in range(len(g.U.ixs)): g.fill(i)
+    special = gnames + anames
+    for _ in range(rng.randrange(8, 30)):
+        # one key (built from the shared vocabulary), through the corresponding indexer of every set in turn
+        which = rng.randrange(len(ixs[sets[0]]))
+        if which >= min(len(v) for v in ixs.values()): which = 0
+        s0 = sets[0]
+        r = rng.random()
+        if r < 0.45: ids = rng.choice(special)
+        elif r < 0.8: ids = tuple(rng.choice(special) if rng.random() < 0.6 else g.name(s0, 0.0) for _ in range(rng.randrange(1, 4)))
+        else: ids = g.chem_key(s0, 0.0, top=False)
+        if which == 0:
+            ix0 = g.U.ixs[ixs[s0][0]][0]
+            r2 = rng.random()
+            key = ids if r2 < 0.25 else ((Ellipsis, ids) if r2 < 0.4 else (g.phase_label(ix0), ids))
+        else: key = ids
+        order = list(sets); rng.shuffle(order)
+        write = rng.random() < 0.25
+        for s in order:
+            n_ = ixs[s][which]
+            if write: g.do(f'set {n_} {show_key(key)} {g.data_for(n_, key)}')
+            g.do(f'get {n_} {show_key(key)}')
+        if rng.random() < 0.08:
+            s = rng.choice(sets)
+            g.group(s, name=rng.choice(gnames)) if GEN_REDEFINE_GROUPS else None
+
+
+@stoppable
 def gen_cross(g, rng):
     """two or three packages with overlapping chemicals; copy_like / mix_from through index_overlap, then CAS keys"""
     base = rng.sample(POOL, rng.randrange(3, 8))
@@ -1362,8 +1451,9 @@ def generate(rng, tier, index, nworkers):
     for j in range(n - 1):
         r = rng.random()
         if r < (0.03 if tier == 'quick' else 0.05): yield gen_churn(rng, tier)
-        elif r < 0.22: yield gen_cross(rng)
-        elif r < 0.42: yield gen_grow(rng)
+        elif r < 0.20: yield gen_cross(rng)
+        elif r < 0.32: yield gen_twins(rng)
+        elif r < 0.48: yield gen_grow(rng)
         else: yield gen_small(rng)
 
 
@@ -1435,6 +1525,17 @@ def corpus():
         # 12. names in use: set_alias with a group / attribute for ID
         Case([W, 'group 0 G Methanol,Ethanol 1,3', 'cix 0', 'set 0 * v:1,2,4', 'alias 0 G gg', 'get 0 gg', 'set 0 gg s:1', 'set 0 (Water,gg) s:5',
               'get 0 *', 'alias 0 G Water', 'alias 0 size x', 'alias 0 size size', 'alias 0 MW Water', 'get 0 Water'], {'kind': 'corpus-alias-ids'}),
+    ]
+    cases += [
+        # 13. two distinct chemicals objects with the same IDs, the same group / alias names meaning different chemicals
+        Case([W, W, 'group 0 Light Ethanol,Methanol 1,1', 'alias 0 Ethanol Solvent', 'group 1 Light Methanol,Water 1,3',
+              'alias 1 Water Solvent', 'mix 0 lg', 'mix 1 lg', 'set 0 l v:1,2,4', 'set 0 g v:8,16,32', 'set 1 l v:1,2,4', 'set 1 g v:8,16,32',
+              'get 0 (l,Light)', 'get 1 (l,Light)', 'get 0 Solvent', 'get 1 Solvent', 'get 1 (*,(Solvent,Light))', 'get 0 (*,(Solvent,Light))',
+              'set 1 (l,Light) s:8', 'get 1 l', 'set 0 (g,Light) s:8', 'get 0 g', 'get 0 [g,[Light,Solvent]]', 'get 1 [g,[Light,Solvent]]'],
+             {'kind': 'corpus-twins'}),
+        # 14. isomers: a formula claimed by two chemicals resolves to neither
+        Case(['chems Propanol Isopropanol Water', 'cix 0', 'mix 0 lg', 'set 0 * v:1,2,4', 'get 0 C3H8O', 'get 0 (Water,C3H8O)', 'get 1 (l,C3H8O)',
+              'get 0 propan-1-ol', 'get 0 propan-2-ol', 'alias 0 Propanol C3H8O', 'get 0 C3H8O'], {'kind': 'corpus-isomers'}),
     ]
     if GEN_GROUP_CLOBBER:
         cases.append(Case([W, 'group 0 G Methanol,Ethanol -', 'cix 0', 'set 0 * v:1,2,4', 'get 0 Water', 'group 0 Water Ethanol,Methanol -',
